@@ -26,7 +26,7 @@ SCALES = (F(2), F(1, 2), F(7, 3))
 
 def bounds(tier, seed):
     q = tier == "quick"
-    return {"pmax": 5, "span_max": 130 if q else 1000, "random2_grid": 60 if q else 200, "random3_grid": 12 if q else 24,
+    return {"pmax": 5, "span_max": 130 if q else 400, "random2_grid": 60 if q else 200, "random3_grid": 12 if q else 24,
             "random2_full_for_degree": None if q else 1}
 
 
